@@ -31,6 +31,7 @@ import (
 	"net/url"
 	"os"
 	"path/filepath"
+	"sort"
 	"strings"
 	"sync"
 
@@ -40,6 +41,8 @@ import (
 	"github.com/lestrrat-go/jwx/v2/x25519"
 	nutsCrypto "github.com/nuts-foundation/nuts-node/crypto"
 	"github.com/nuts-foundation/nuts-node/crypto/dpop"
+	"github.com/nuts-foundation/nuts-node/storage"
+	"github.com/nuts-foundation/nuts-node/storage/orm"
 	"verif.local/h"
 	"verif.local/h/canary"
 )
@@ -654,5 +657,94 @@ func (s *c03State) hostileKids(st c03Step) {
 	}
 	s.x.Classf("hostile_kid:existing-kids-rechecked:%d", c03Bucket(len(existing)))
 	s.x.NonTrivial()
+	n.sweep(s.x, st.Op, outs...)
+}
+
+// ---------------------------------------------------------------------------------------------------------------------
+// start-up migration, again
+
+// migrateAgain runs the crypto engine's start-up migration on the populated node (what the next restart does) and
+// checks that it only does what it exists for: adopt key files no key_reference names (under kid = key name). The set
+// of key ids must otherwise stay as it was, and a storage name that is no key id must stay unusable as one.
+func (s *c03State) migrateAgain(st c03Step) {
+	n := s.n
+	n.loadKeys(s.x)
+	se, ok := n.system.FindEngineByName("storage").(storage.Engine)
+	if !ok {
+		s.x.Fatalf("storage engine not found")
+	}
+	var rows []orm.KeyReference
+	s.x.NoErr(se.GetSQLDatabase().Find(&rows).Error, "select key_reference")
+	referenced := map[string]bool{}
+	for _, r := range rows {
+		referenced[r.KeyName+"/"+r.Version] = true
+	}
+	expected := map[string]bool{}
+	for _, kid := range n.keyStore.List(s.ctx()) {
+		expected[kid] = true
+	}
+	var names []string
+	for f := range s.keyFiles() {
+		name := strings.TrimSuffix(f, "_private.pem")
+		names = append(names, name)
+		if !referenced[name+"/1"] {
+			expected[name] = true // an orphan key file (e.g. left by a rolled-back operation): Migrate adopts it
+			s.x.Class("migrate_again:orphan-key-file-adopted")
+		}
+	}
+	sort.Strings(names)
+	if err := n.keyStore.Migrate(); err != nil {
+		s.x.Class("migrate_again:failed")
+		n.sweep(s.x, st.Op, []byte(err.Error()))
+		return
+	}
+	s.x.Class("migrate_again:done")
+	s.x.NonTrivial()
+	after := map[string]bool{}
+	for _, kid := range n.keyStore.List(s.ctx()) {
+		after[kid] = true
+	}
+	var extra, missing []string
+	for k := range after {
+		if !expected[k] {
+			extra = append(extra, k)
+		}
+	}
+	for k := range expected {
+		if !after[k] {
+			missing = append(missing, k)
+		}
+	}
+	sort.Strings(extra)
+	sort.Strings(missing)
+	if len(extra)+len(missing) > 0 {
+		if len(extra) > 4 {
+			extra = append(extra[:4], fmt.Sprintf("… %d more", len(extra)-4))
+		}
+		s.x.Violate("history:node:migrate-changed-key-ids", "the start-up migration on the populated node changed the set of key ids: new %q, lost %q (%d keys in the store)", extra, missing, len(names))
+	}
+	// storage names that are no key ids stay unusable (in-process and through the API)
+	var outs [][]byte
+	probed := 0
+	for i := len(names) - 1; i >= 0 && probed < 40; i-- {
+		name := names[(i+st.A*7)%len(names)]
+		if expected[name] {
+			continue
+		}
+		probed++
+		ex, _ := n.keyStore.Exists(s.ctx(), name)
+		tok, err := n.keyStore.SignJWT(s.ctx(), map[string]interface{}{"iss": "c03-migrate"}, nil, name)
+		var rest c03Resp
+		if probed <= 3 {
+			rest = n.do("POST", n.internal+"/internal/crypto/v1/sign_jwt", "application/json", c03Raw(map[string]any{"kid": name, "claims": map[string]any{"iss": "c03-migrate"}}), nil)
+			outs = append(outs, rest.Dump())
+		}
+		if ex || err == nil || rest.Status == 200 {
+			s.x.Violate("history:node:storage-name-accepted-as-key-id", "after the start-up migration the storage name %q works as a key id: Exists=%v, SignJWT signed=%v, REST sign_jwt status=%d", name, ex, err == nil, rest.Status)
+			outs = append(outs, []byte(tok))
+			break
+		}
+	}
+	s.x.Classf("migrate_again:storage-names-probed:%d", c03Bucket(probed))
 	n.sweep(s.x, st.Op, outs...)
 }
